@@ -30,6 +30,10 @@ CLAIMS["C16"] = ("other", "inter-procedural must-hold lockset over synchronous s
   "Decides the locking discipline the statement relies on for every path and caller, independent of the scheduler: mutex held at every membership write / seat-manager change / hand action, idiomatic critical sections, seat-manager writes under its write lock, no re-entrant acquisition. It does not decide linearizability of histories.",
   "DESIGN.md §4 C16", TRUST)
 
+CLAIMS["C01"] = ("other", "who-may-write + value-shape (provenance) analysis of every bankroll store over SSA access paths; induction-variable recognition for whole-list loops; address-escape check; lost-update rule between writers",
+  "Decides that the set of bankroll writers is closed and each has an accepted chip-flow shape, that settlement credits result entry r to the player of r over the whole result list, that no top-up can be lost to an absolute settlement write, and that the start stack is the player's bankroll. One genuine lost-update defect was repaired (fix: commit). Zero-sum of pokerface results and sums over histories are not decided.",
+  "DESIGN.md §4 C01, §5 F5", TRUST)
+
 REASONS = {}
 
 checks = []
